@@ -23,7 +23,7 @@ impl Typstyle {
         // Trim the give range to ensure no space aside.
         let range = utils::trim_range(source.text(), utf8_range);
 
-        let Some((node, mode)) =
+        let Some((node, ctx)) =
             get_node_cover_range(source, range.clone()).filter(|(node, _)| !node.erroneous())
         else {
             return Err(Error::SyntaxError);
@@ -31,7 +31,6 @@ impl Typstyle {
 
         let attrs = AttrStore::new(node.get()); // Here we only compute the attributes of that subtree.
         let printer = PrettyPrinter::new(self.config.clone(), attrs);
-        let ctx = Context::default().with_mode(mode);
         let doc = if let Some(markup) = node.cast() {
             printer.convert_markup(ctx, markup)
         } else if let Some(expr) = node.cast() {
@@ -63,34 +62,42 @@ impl Typstyle {
     }
 }
 
-/// Get a Markup/Expr/Pattern node from source with minimal span that covering the given range.
-fn get_node_cover_range(source: &Source, range: Range<usize>) -> Option<(LinkedNode, Mode)> {
+/// Get a Markup/Expr/Pattern node from source with minimal span that covering the given range,
+/// together with the context the full formatter would convert it in.
+fn get_node_cover_range(source: &Source, range: Range<usize>) -> Option<(LinkedNode, Context)> {
     let range = range.start..range.end.min(source.len_bytes());
-    get_node_cover_range_impl(range, LinkedNode::new(source.root()), Mode::Markup)
-        .and_then(|(span, mode)| source.find(span).map(|node| (node, mode)))
+    get_node_cover_range_impl(
+        range,
+        LinkedNode::new(source.root()),
+        Context::default().with_mode(Mode::Markup),
+    )
+    .and_then(|(span, ctx)| source.find(span).map(|node| (node, ctx)))
 }
 
 fn get_node_cover_range_impl(
     range: Range<usize>,
     node: LinkedNode<'_>,
-    mode: Mode,
-) -> Option<(Span, Mode)> {
-    let mode = match node.kind() {
-        SyntaxKind::Markup => Mode::Markup,
-        SyntaxKind::CodeBlock => Mode::Code,
-        SyntaxKind::Equation => Mode::Math,
-        _ => mode,
+    ctx: Context,
+) -> Option<(Span, Context)> {
+    let ctx = match node.kind() {
+        SyntaxKind::Markup => ctx.with_mode(Mode::Markup),
+        SyntaxKind::CodeBlock => ctx.with_mode(Mode::Code),
+        SyntaxKind::Equation => ctx.with_mode(Mode::Math),
+        // Nothing below math is broken into several lines, as in the full formatter.
+        SyntaxKind::Math => ctx.suppress_breaks(),
+        _ => ctx,
     };
     // In math, an expression embedded with `#` is formatted in code mode, as the full formatter does.
     let mut at_hash = false;
     for child in node.children() {
-        let child_mode = if at_hash && mode == Mode::Math {
-            Mode::Code
+        let child_ctx = if at_hash && ctx.mode == Mode::Math {
+            ctx.with_mode(Mode::Code)
         } else {
-            mode
-        };
+            ctx
+        }
+        .with_after_hash(at_hash);
         at_hash = child.kind() == SyntaxKind::Hash;
-        if let Some(res) = get_node_cover_range_impl(range.clone(), child, child_mode) {
+        if let Some(res) = get_node_cover_range_impl(range.clone(), child, child_ctx) {
             return Some(res);
         }
     }
@@ -98,6 +105,6 @@ fn get_node_cover_range_impl(
     (node_range.start <= range.start
         && node_range.end >= range.end
         && (node.is::<Markup>() || node.is::<Expr>() || node.is::<Pattern>()))
-    .then(|| (node.span(), mode))
+    .then(|| (node.span(), ctx))
     // It returns span to avoid problems with borrowing.
 }
